@@ -168,7 +168,7 @@ pub(crate) fn world_matches(w: &World, keys: &[AKey; POOL]) -> bool {
             if we != Some((sk::key_of(i), cfk::vk_hash(&sk::key_of(i)), k.weight)) { ok = false; }
             sum += k.weight as i128;
             match k.e.expiry {
-                Some(d) => { if exk::vk_find(&w.cache.ttl_ticker, k.e.id) != Some(((d.0 % 2) as usize, sup::time(d.0, d.1))) { ok = false; } }
+                Some(d) => { if exk::vk_find(&w.cache.ttl_ticker, k.e.id) != Some(((d.0 % 2) as usize, sup::time(d.0, d.1))) || exk::vk_count(&w.cache.ttl_ticker, k.e.id) != 1 { ok = false; } }
                 None => { if exk::vk_find(&w.cache.ttl_ticker, k.e.id).is_some() { ok = false; } }
             }
         } else {
@@ -330,6 +330,23 @@ fn c07_put_client_step_for(q: usize) {
         assert!(cek::vk_ack_ptr(&c.command_executor, 0) == Some(Arc::as_ptr(&ack)), "C11: the caller holds the acknowledgement of exactly the queued command");
     }
     assert!(world_matches(&w, &keys), "C07: the caller's side of a put never changes value, weight or expiry of any key");
+    // C05 end to end: if a put was queued although the key is still physically held (expired-unswept or
+    // soft-deleted), let the worker apply it and check the accounting at quiescence
+    if present && qlen == 1 {
+        cek::vk_run_worker(w.worker);
+        let cw = apk::vk_cw(&c.admission_policy);
+        let mut sum: i128 = 0;
+        let mut i = 0;
+        while i < POOL {
+            if let Some(sv) = sk::vk_peek(&c.store, &sk::key_of(i)) {
+                let charged = cwk::vk_entry(cw, sv.key_id());
+                assert!(charged.is_some(), "C05: every held key is charged under the id its store entry carries");
+                sum += charged.map(|x| x.2).unwrap_or(0) as i128;
+            }
+            i += 1;
+        }
+        assert!(c.total_weight_used() as i128 == sum, "C05: at quiescence the total equals the sum of the weights of exactly the held keys (no weight stays charged for a replaced entry)");
+    }
     kani::cover!(readable && variant == 3, "existing key, weight+ttl variant");
     kani::cover!(!present && variant == 2, "absent key, ttl variant");
     kani::cover!(present && keys[q].e.soft_deleted, "soft-deleted, delete not yet applied");
@@ -382,6 +399,76 @@ fn c04_delete_hides_then_releases_for(q: usize) {
     kani::cover!(held && keys[q].e.expiry.is_some(), "delete of a key with TTL");
     kani::cover!(held && keys[q].e.soft_deleted, "second delete while the first is still pending");
     kani::cover!(!held, "delete of a key that is not held (absent pool key / never written)");
+    vs::edge_covers();
+    core::mem::forget(w);
+}
+
+static mut G_CACHE: *const CacheD<u64, u64> = core::ptr::null();
+static mut G_DELETE_RETURNED: bool = false;
+fn interfering_delete(_site: u32) {
+    unsafe {
+        let r = (&*G_CACHE).delete(102);
+        if let Ok(a) = r { core::mem::forget(a); }
+        G_DELETE_RETURNED = true;
+    }
+}
+/// C04 / P4: another thread calls delete(k) while THIS thread holds a get_ref guard on k (the guard keeps the
+/// store shard locked).  Whenever that delete has returned, no later read may return k - in particular the
+/// delete must not "succeed" by skipping its soft-delete mark because the shard was busy.  (With the real
+/// DashMap the deleting thread waits for the guard; the lock model turns that placement into an infeasible
+/// path, so on code that waits this harness has nothing to observe and passes.)
+#[kani::proof]
+#[kani::unwind(6)]
+fn c04_delete_while_reader_holds_guard() {
+    mk_world!(w, keys, _max, 2, SHAPE_A);
+    let now = any_now();
+    let c = &w.cache;
+    kani::assume(!keys[1].e.soft_deleted);
+    unsafe { G_CACHE = c as *const CacheD<u64, u64>; G_DELETE_RETURNED = false; }
+    let guard = c.get_ref(&102);
+    assert!(guard.is_some(), "C02: a live key without TTL is readable");
+    vs::set_hook(interfering_delete, 1);
+    let _ = c.total_weight_used();          // any operation of this thread while it still holds the guard
+    vs::clear_hook();
+    drop(guard);
+    if unsafe { G_DELETE_RETURNED } {
+        assert!(c.get(&102).is_none() && c.get_ref(&102).is_none(), "C04: once delete(k) has returned no read returns k (even if a reader held a reference while delete ran)");
+    }
+    kani::cover!(unsafe { G_DELETE_RETURNED }, "opt: delete returned while the reader still held its guard (infeasible when delete waits for the guard)");
+    let _ = now;
+    vs::edge_covers();
+    core::mem::forget(w);
+}
+
+static mut G_PUT_STATUS: Option<Poll<CommandStatus>> = None;
+fn interfering_put(_site: u32) {
+    unsafe {
+        let r = (&*G_CACHE).put_with_weight(102, 77, 3);
+        if let Ok(a) = r { let a = core::mem::ManuallyDrop::new(a); G_PUT_STATUS = Some(status_of(&a)); }
+    }
+}
+/// C07 / P4: another thread calls put(k) for a READABLE key k while this thread is inside put_or_update(k)
+/// (which holds the store entry's write guard while it consults the clock).  Whenever that put has returned it
+/// must have been rejected with 'key already exists' - in particular it must not slip through because the
+/// existence check could not look at a busy shard.  (With the real DashMap the put waits for the guard; the
+/// lock model makes that placement infeasible, so on code that waits this harness has nothing to observe.)
+#[kani::proof]
+#[kani::unwind(6)]
+fn c07_put_while_writer_holds_guard() {
+    mk_world!(w, keys, _max, 2, SHAPE_A);
+    let _now = any_now();
+    let c = &w.cache;
+    kani::assume(!keys[1].e.soft_deleted);
+    unsafe { G_CACHE = c as *const CacheD<u64, u64>; G_PUT_STATUS = None; }
+    vs::set_hook(interfering_put, 1);
+    let r = c.put_or_update(pouk::vk_request(102, None, None, Some(Duration::from_secs(30)), false));
+    vs::clear_hook();
+    let _a = hold(r);
+    if let Some(st) = unsafe { G_PUT_STATUS } {
+        assert!(st == Poll::Ready(CommandStatus::Rejected(RejectionReason::KeyAlreadyExists)), "C07: a put of a readable key is rejected with 'key already exists', whatever else is going on with that key");
+    }
+    assert!(sk::vk_peek(&c.store, &102).map(|s| *s.value_ref()) == Some(keys[1].e.value), "C07: the existing value is untouched");
+    kani::cover!(unsafe { G_PUT_STATUS.is_some() }, "the racing put returned");
     vs::edge_covers();
     core::mem::forget(w);
 }
